@@ -505,7 +505,7 @@ def run(ctx):
                 continue
             ctx.add(RULE, f, 'sibling(%s)' % key[1], 'violation',
                     'copies disagree: %s in the %s copy differs from the %s cop%s; first difference at %s' % (key[1], fams[odd_t], '/'.join(others) or 'other', 'ies' if len(others) > 1 else 'y', d),
-                    props_of(prog, f, c09), f.line, {'copies': [fams[t] for t in have], 'difference': d})
+                    props_of(prog, f, c09), f.line, {'copies': [fams[t] for t in have], 'difference': d, 'similarity': round(sim, 2), 'syntax_similarity': round(hsim, 2)})
         else:
             f = cores[ref_t][key]
             ctx.add(RULE, f, 'sibling(%s)' % key[1], 'ok', 'identical canonical form in the %s copies' % '/'.join(fams[t] for t in have), props_of(prog, f, c09), f.line, {'copies': [fams[t] for t in have]})
